@@ -350,9 +350,19 @@ def c04(tier, seed):
 def c07(tier, seed):
     c = Check("C07", tier, seed)
     binary = vlib.build_harness()
-    scns = collect_scripts([0, 1, 2, 3] if tier == "quick" else [0, 1, 2, 3, 4, 5, 8, 16], "C07", True)
+    r = c.mc("MC_Collect", "MC_Collect_q" if tier == "quick" else "MC_Collect_t")
+    scns = []
+    for d in dedupe(r["scenarios"]):
+        for op in ("try_from_iter", "from_iter", "try_boxed_from_iter", "boxed_from_iter"):
+            st = {"op": op, "n": d["n"], "okind": "box" if "boxed" in op else "arr", "script": d["script"], "hint": d["hint"]}
+            scns.append({"case": op, "prop": "C07", "ety": "tk", "steps": [st], "d": dict(d, op=op)})
+    # truthful hints (the script's own remaining count) and larger N: the harness's own table
+    scns += [s for s in collect_scripts([0, 1, 2, 3] if tier == "quick" else [0, 1, 2, 3, 4, 5, 8, 16], "C07", True) if s["d"].get("hint") is None or s["d"]["n"] > 3]
     c.cov["exhaustive"] = True
+    c.cov["bounds"] = {"model": "N in 0..%d, every 0/1 script of length <= N+3, a panic at every poll index, 8 hint kinds" % (3 if tier == "quick" else 5)}
     c.conform(binary, with_etys(scns, ["tk", "zst"] if tier == "quick" else ["tk", "zst", "plain"]), "collect")
+    if tier != "quick":
+        c.neg("MC_Collect", "NEG_Collect_noprobe")
     return c.finish()
 
 
